@@ -34,6 +34,7 @@ func isReturn(in ssa.Instruction, _ resolver) bool { _, ok := in.(*ssa.Return); 
 func runC11(c *Ctx) {
 	w := c.W
 	c11Extras(c)
+	c11Extras3(c)
 	cw := w.Fn(fnContinue)
 	if cw == nil {
 		c.Undecided("R-CUT", fnContinue, "anchor", "-", "not found")
